@@ -58,6 +58,15 @@ has one updating object per identity epoch, 'stale-handle:sequential-handover' o
 object loses updates in the library itself (the known two-live-values behaviour) — from there on the history
 ('stale-handle:interleaved') keeps only the no-exception, file-level and model-comparison checks.  (d) skips stale objects.
 
+GROWTH: histories with `prometheus_client.mmap_dict._INITIAL_MMAP_SIZE` patched to a small value (case key
+'initial_mmap_size'; restored afterwards) in which one identity creates enough labelled children for its file to grow
+past the initial size (checked with os.path.getsize: 'growth:file-grew'; a history marked 'expect_growth' that does
+not grow is a harness error), leaves that identity and comes BACK to the grown file (identity change, via a third
+identity, a new worker re-using the pid, death + new worker), then updates existing children and creates new ones: all
+oracles apply unchanged (the model knows no file sizes and must simply agree).  One unpatched history creates ~700
+children of one counter in a single `['bulk', mi, n, label_value_length, amount]` step so that counter_<pid>.db exceeds
+65536 bytes (model comparison off for that one: the driver's reply repeats the whole directory after every call).
+
 FALSY identities: the identity pool contains 0 (and the empty string, which the clean library accepts end to end: files
 `counter_.db`, pid label '') — as the initial identity, as the target of a change, as the identity returned to, as a
 reused pid of a new worker and as the argument of mark_process_dead; the systematic families are re-run with 10 or 11
@@ -211,6 +220,7 @@ class Result:
         self.key = None
         self.sample = None
         self.counts = {}
+        self.grown_sizes = {}
 
     def count(self, k, n=1):
         self.counts[k] = self.counts.get(k, 0) + n
@@ -379,10 +389,26 @@ class Worker:
 
 def needs_cache(md, uop):
     """does this update read the value object's cached value (everything except a plain set)"""
-    return not (uop in ('set', 'reset'))
+    return not (uop in ('set', 'reset', 'settime'))
 
 
 def run_history(scen, want_sample=False):
+    """run one history; `initial_mmap_size` in the case patches the store's initial file size for its duration"""
+    from prometheus_client import mmap_dict
+    saved = mmap_dict._INITIAL_MMAP_SIZE
+    try:
+        if scen.get('initial_mmap_size'):
+            mmap_dict._INITIAL_MMAP_SIZE = scen['initial_mmap_size']
+        return _run_history(scen, want_sample)
+    finally:
+        mmap_dict._INITIAL_MMAP_SIZE = saved
+
+
+def bulk_value(j, n):
+    return ('v%04d-' % j) + 'x' * n
+
+
+def _run_history(scen, want_sample=False):
     from prometheus_client import multiprocess
     res = Result()
     pool = scen['pool']
@@ -394,6 +420,9 @@ def run_history(scen, want_sample=False):
         res.count('identity:0')
     if '' in ids_used:
         res.count('identity:empty-string')
+    limit = scen.get('initial_mmap_size') or 65536
+    grown = set()       # files that grew past the initial size
+    left = set()        # identities the history has left (identity change away, worker ended)
     with mpsim.Sim() as sim:
         world.after = lambda at: res.snaps.__setitem__(at, mpsim.snapshot(sim.dir))
         w = Worker(sim, pool, scen['pid0'], world, variant)
@@ -465,6 +494,30 @@ def run_history(scen, want_sample=False):
                 w.log.set_pid_logged(st[1])
                 res.count('pid:' + ('return-to-seen' if st[1] in pids_seen else 'new'))
                 pids_seen.add(st[1])
+            elif op == 'bulk':
+                # n children of a labelled counter, each incremented once, as ONE metric-level step (observed at its end)
+                mi, n, vlen, xb = st[1], st[2], st[3], st[4]
+                md = pool[mi]
+                x = lib.from_bits(xb)
+                hook, world.after, w.log.after = world.after, None, None
+                try:
+                    if md['kind'] == 'counter' and len(md['labels']) == 1:
+                        for j in range(n):
+                            lvs = (bulk_value(j, vlen),)
+                            c, inst = w.child(mi, lvs)
+                            oracle.create_child(mi, lvs)
+                            c.inc(x)
+                            w.wrote(inst, True)
+                            oracle.update(pid, mi, lvs, 'inc', x, 0.0)
+                except Exception as e:  # noqa
+                    raised = type(e).__name__
+                    res.failures.append(('C09:raises', 'step %r under identity %s raised %s: %s' % (st, pid, raised, e), i))
+                finally:
+                    world.after, w.log.after = hook, hook
+                if len(world.ops) > nlog:
+                    w.sync()
+                    oracle.touched(pid)
+                    hook(len(world.ops) - 1)
             elif op.startswith('old-') and st[1] not in w.handles:
                 res.count('stale-handle:no-such-handle')    # (shrunk lists / after a new worker) nothing to do
             else:
@@ -539,6 +592,8 @@ def run_history(scen, want_sample=False):
                                     c.dec(x)
                                 elif uop == 'obs':
                                     c.observe(x)
+                                elif uop == 'settime':
+                                    c.set_to_current_time()
                                 else:
                                     c.set(x)
                             except Exception as e:  # noqa
@@ -563,6 +618,17 @@ def run_history(scen, want_sample=False):
                                              'that was removed from its parent and that the script did not keep' % (st, o[:2], o[1]), i))
             after = mpsim.snapshot(sim.dir)
             raw_after = mpsim.raw_snapshot(sim.dir)
+            for bn, raw in raw_after.items():
+                if len(raw) > limit and bn not in grown:
+                    grown.add(bn)
+                    res.count('growth:file-grew')
+                    res.grown_sizes[bn] = len(raw)
+            if kind == 'pid':
+                left.add(pid)
+            elif kind in ('W', 'D'):
+                left.update(exiting)
+            if kind == 'op' and pid in left and any(bn.endswith('_%s.db' % pid) and len(raw_before.get(bn, b'')) > limit for bn in grown):
+                res.count('growth:update-after-return-to-grown-file')
             oracle_unreadable(res, i, after)
             oracle_a(res, i, pid, before, after, kind)
             oracle_raw(res, i, kind, pid, raw_before, raw_after, exiting)
@@ -584,12 +650,14 @@ def run_history(scen, want_sample=False):
                 handover = True
         if any(k.startswith('stale-handle:update-through') for k in res.counts):
             res.count('stale-handle:' + ('interleaved' if lossy else ('sequential-handover' if handover else 'epoch-single-object')))
-        res.line = mpsim.hist_request(scen['pid0'], world.ops)
+        if scen.get('expect_growth') and not res.counts.get('growth:update-after-return-to-grown-file') and not res.failures:
+            raise lib.Infra('growth history did not return to a file grown past %d bytes: %r' % (limit, res.grown_sizes))
+        res.line = mpsim.hist_request(scen['pid0'], world.ops) if not scen.get('no_model') else None
         res.nops = len(world.ops)
         res.gets = dict(world.gets)
         res.snaps = {k: mpsim.canon_snapshot(v) for k, v in res.snaps.items()}
         if any(st[0] in ('pid', 'W', 'D') for st in scen['steps']):
-            res.key = hashlib.md5((res.line + mpsim.fams_fingerprint(canon)).encode('utf-8')).hexdigest()
+            res.key = hashlib.md5(((res.line or repr(scen['steps'])) + mpsim.fams_fingerprint(canon)).encode('utf-8')).hexdigest()
         if want_sample:
             res.sample = {'pid0': scen['pid0'], 'steps': [[s if not isinstance(s, int) or j < 2 or st[0] in ('pid', 'W', 'D') else repr(lib.from_bits(s))
                                                           for j, s in enumerate(st)] for st in scen['steps']][:14],
@@ -726,8 +794,8 @@ def gen_history(rng, all_modes, long=False):
         else:
             if rng.random() < 0.7:
                 t += 1.0
-            op = rng.choice(['set', 'set', 'set', 'inc', 'dec'])
-            steps.append([op, mi, lvs, B(c08.gen_value(rng, md, op)), B(t)])
+            op = rng.choice(['set', 'set', 'set', 'inc', 'dec', 'settime'])
+            steps.append([op, mi, lvs, B(t if op == 'settime' else c08.gen_value(rng, md, op)), B(t)])
     return {'pool': pool, 'pid0': pids[0], 'steps': steps, 'variant': rng.randrange(3)}
 
 
@@ -823,8 +891,8 @@ def gen_world(rng, all_modes, long=False):
             else:
                 if rng.random() < 0.7:
                     t += 1.0
-                op = rng.choice(['set', 'set', 'set', 'inc', 'dec'])
-                steps.append([op, mi, lvs, B(c08.gen_value(rng, md, op)), B(t)])
+                op = rng.choice(['set', 'set', 'set', 'inc', 'dec', 'settime'])
+                steps.append([op, mi, lvs, B(t if op == 'settime' else c08.gen_value(rng, md, op)), B(t)])
         used += [q for q in ids if q not in used]
         if g + 1 == ngen:
             if rng.random() < 0.4:
@@ -889,6 +957,48 @@ def relabel_insertions(steps):
             yield a + [R, ['pid', 11], relabel, ['D', 10]] + b
 
 
+# ================================================================================================== growth
+def growth_histories():
+    """one identity fills its file past the (patched) initial size, the history leaves that identity and comes back"""
+    t = 10.0
+    kinds = [
+        ('counter', mdef('counter', 'cl', ['l']), lambda j, lv: ['inc', 0, [lv], B(1.0 + j % 3)]),
+        ('gauge-all', mdef('gauge', 'ga', ['l'], 'all'), lambda j, lv: ['set', 0, [lv], B(2.0 + j), B(t + j)]),
+        ('gauge-livesum', mdef('gauge', 'gv', ['l'], 'livesum'), lambda j, lv: ['inc', 0, [lv], B(1.0), B(t + j)]),
+        ('histogram', mdef('histogram', 'hl', ['l'], '', 'small'), lambda j, lv: ['obs', 0, [lv], B([1.0, 2.5, 8.0][j % 3])]),
+    ]
+    k = 0
+    for name, md, upd in kinds:
+        for n, ims in ((6, 256), (14, 512), (30, 256)):
+            if name == 'histogram' and n == 30:
+                n = 12
+            lv = lambda j: 'child-%02d-%s' % (j, 'y' * (6 + 3 * (j % 4)))
+            fill = [upd(j, lv(j)) for j in range(n)]
+            away = [upd(0, lv(0)), upd(n - 1, lv(n - 1))]
+            after = [upd(0, lv(0)), upd(n // 2, lv(n // 2)), upd(n - 1, lv(n - 1)), upd(n, lv(n)), upd(n + 1, lv(n + 1)), ['read', 0]]
+            backs = [
+                [['pid', 11]] + away + [['pid', 10]],
+                [['pid', 11]] + away + [['pid', 12], away[0], ['pid', 10]],        # back via a third identity
+                [['W', 11]] + away + [['W', 10]],                                   # another worker, then the pid is reused
+                [['pid', 11]] + away + [['D', 10], ['W', 10]],                      # death and restart on the old pid
+                [['D', 10], ['W', 10]],                                             # immediate restart
+            ]
+            for back in backs:
+                scen = {'pool': [md], 'pid0': 10, 'variant': 0, 'initial_mmap_size': ims, 'steps': fill + back + after}
+                k += 1
+                if name != 'gauge-livesum' or back[-2:] != [['D', 10], ['W', 10]]:
+                    scen['expect_growth'] = True        # (a dead live-gauge file starts again from nothing)
+                yield rename_ids(scen, [{}, {10: 0}, {11: 0}][k % 3])
+
+
+def big_history(n=700, vlen=64, ident=10):
+    """UNPATCHED initial size: n children of one counter push counter_<pid>.db past 65536 bytes; away and back"""
+    first, mid, last, new = [bulk_value(j, vlen) for j in (0, n // 2, n - 1, n)]
+    return {'pool': [mdef('counter', 'c', ['l'])], 'pid0': ident, 'variant': 0, 'expect_growth': True, 'no_model': True, 'steps': [
+        ['bulk', 0, n, vlen, B(1.0)], ['pid', 11], ['inc', 0, [first], B(2.0)], ['pid', ident], ['inc', 0, [first], B(4.0)],
+        ['inc', 0, [mid], B(8.0)], ['inc', 0, [last], B(16.0)], ['inc', 0, [new], B(32.0)], ['read', 0]]}
+
+
 # ================================================================================================== stale handles
 def stale_pools():
     """(pool, first update, update through the kept object, update through the young object) per labelled metric kind"""
@@ -949,9 +1059,9 @@ def sprinkle_stale(rng, pool, steps):
         out.append(st)
         if st[0] == 'W':
             handles = []
-        if st[0] in ('set', 'inc', 'dec') and len(st) > 4:
+        if st[0] in ('set', 'inc', 'dec', 'settime') and len(st) > 4:
             lastt = lib.from_bits(st[4])
-        if st[0] in ('inc', 'dec', 'set', 'obs', 'child') and pool[st[1]]['labels'] and rng.random() < 0.3:
+        if st[0] in ('inc', 'dec', 'set', 'settime', 'obs', 'child') and pool[st[1]]['labels'] and rng.random() < 0.3:
             n += 1
             handles.append(('h%d' % n, st[1]))
             out.append(['keep', st[1], st[2], 'h%d' % n])
@@ -1242,13 +1352,13 @@ class Reporter:
             seen.add(sig)
             case = scen
             if not scen.get('fork') and not scen.get('rawfork'):
-                case = dict(scen, steps=scen['steps'][:i + 1])
+                case = dict(scen, expect_growth=False, steps=scen['steps'][:i + 1])
                 if sig not in self.shrunk and len(self.shrunk) < 3:
                     self.shrunk.add(sig)
 
                     def still(steps, sig=sig):
-                        return any(f[0] == sig for f in run_history(dict(scen, steps=steps)).failures)
-                    case = dict(scen, steps=lib.shrink_list(case['steps'], still, max_rounds=40))
+                        return any(f[0] == sig for f in run_history(dict(scen, expect_growth=False, steps=steps)).failures)
+                    case = dict(scen, expect_growth=False, steps=lib.shrink_list(case['steps'], still, max_rounds=40))
                     for f in run_history(case).failures:
                         if f[0] == sig:
                             what = f[1]
@@ -1265,8 +1375,8 @@ class Reporter:
             ctx = self.ctx
 
             def still(steps):
-                return bool(model_divergences(ctx, [run_history(dict(scen, steps=steps))])[0][0])
-            case = dict(scen, steps=lib.shrink_list(scen['steps'], still, max_rounds=25))
+                return bool(model_divergences(ctx, [run_history(dict(scen, expect_growth=False, steps=steps))])[0][0])
+            case = dict(scen, expect_growth=False, steps=lib.shrink_list(scen['steps'], still, max_rounds=25))
             d = model_divergences(ctx, [run_history(case)])[0][0]
             if d:
                 what = d[0]
@@ -1297,7 +1407,9 @@ def run(ctx):
                 'worker generations with identity changes inside and deaths between and inside them; one case = one history, '
 'family "relabel": 3 base scripts on labelled metrics with remove()/clear() of the next child at every position and '
                 'an identity change / new worker / death at every place relative to it, plus remove/clear sprinkled into all random '
-                'histories; stale-handle histories (a kept old child object next to its re-created successor, updated around identity changes); '
+                'histories; growth histories (initial store size patched to 256/512 bytes: fill a file past it, leave the identity, come '
+                'back by identity change / pid reuse / death+restart, update old and new children) and one unpatched with ~700 children; '
+                'stale-handle histories (a kept old child object next to its re-created successor, updated around identity changes); '
                 '3 real-process cases (helper subprocess, default value class, os.fork and raw libc fork); the falsy identities 0 and "" occur as initial identity, change target, identity returned to, reused pid '
                 'and dead pid (systematic families re-run with 10/11 renamed, ~40 % / ~10 % of the random ones); '
                 'observed after every step; non-trivial when it contains an identity change, a new worker or a death; '
@@ -1356,6 +1468,15 @@ def run(ctx):
             ctx.count('histories:relabel-systematic')
             if len(batch) >= 60:
                 flush(ctx, rep, batch)
+    flush(ctx, rep, batch)
+    for scen in growth_histories():
+        batch.append((scen, run_history(scen)))
+        ctx.count('histories:growth')
+        if len(batch) >= 60:
+            flush(ctx, rep, batch)
+    for scen in [big_history()] if quick else [big_history(), big_history(900, 50, 0), big_history(700, 120, 11), big_history(1500, 40)]:
+        batch.append((scen, run_history(scen)))
+        ctx.count('histories:growth-unpatched-65536')
     flush(ctx, rep, batch)
     for k, (pool, steps) in enumerate(stale_histories()):
         scen = rename_ids({'pool': pool, 'pid0': 10, 'steps': steps, 'variant': 0}, [{}, {}, {11: 0}][k % 3])
